@@ -224,3 +224,22 @@ def check_forwarding(case, rec, prop):
     rec.count('public_arguments_compared')
     if bad or seen.get('content') is not case['content'] and seen.get('content') != case['content']:
         rec.deviation(prop, 'public-argument-not-forwarded', {'function': fn, 'encoder_got_vs_user_passed': bad})
+
+
+def earlier_saves(q, case, rec):
+    """The same QRCode object is serialised before, with other options and into other formats (about every third case,
+    decided by the case seed): what was written earlier must not colour the output that is checked."""
+    import io as _io
+    if case.get('seed', 0) % 3:
+        return
+    rec.count('cases_after_earlier_saves_of_the_same_object')
+    for kind, kw in (('svg', {'dark': 'darkred', 'light': 'yellow', 'scale': 3, 'border': 1, 'finder_dark': 'blue'}),
+                     ('png', {'dark': '#00ff0080', 'light': None, 'scale': 2, 'data_dark': 'navy'}),
+                     ('ppm', {'dark': 'green', 'light': 'pink', 'border': 0}), ('txt', {'border': 7}), ('pdf', {'scale': 0.5, 'dark': 'grey'})):
+        try:
+            q.save(_io.StringIO() if kind == 'txt' else _io.BytesIO(), kind=kind, **kw)
+        except Exception:  # noqa: BLE001   (not the output under test)
+            pass
+    list(q.matrix_iter(scale=2, border=3))
+    it = q.matrix_iter(verbose=True)
+    next(it)            # an iterator that is abandoned half way
